@@ -757,8 +757,11 @@ ALLOW_DIFF = {
 }
 
 
-def rule_usingz(db_base, db_z, chk, rule="ZERASE"):
-    lib = lambda f: f.file and ("/clipper2/" in f.file or "/Clipper2Lib/src/" in f.file) and not f.file.endswith("clipper.export.h")
+def rule_usingz(db_base, db_z, chk, rule="ZERASE", only=None):
+    """only: optional predicate on Func restricting the comparison (e.g. to one source file) - used by the geometry properties that
+    also hold in the USINGZ build, where the #ifdef copies of the offset code must say what the plain code says."""
+    lib0 = lambda f: f.file and ("/clipper2/" in f.file or "/Clipper2Lib/src/" in f.file) and not f.file.endswith("clipper.export.h")
+    lib = (lambda f: lib0(f) and only(f)) if only else lib0
     fb = {}
     for f in db_base.funcs:
         if lib(f) and not f.is_pattern:
@@ -832,6 +835,8 @@ def rule_usingz(db_base, db_z, chk, rule="ZERASE"):
         else:
             real.append(u)
     chk.extra["zerase_unpaired_ignored"] = ignored
+    if only:
+        return n
     if len(real) > 12:
         raise AnalysisBroken("%d functions could not be paired between the USINGZ and the plain build: %s" % (len(real), [u.qual for u in real][:8]))
     for u in real:
